@@ -18,7 +18,7 @@
 (* domain with a family of predicates; the real (Tengo source) module must *)
 (* return the same.                                                        *)
 (***************************************************************************)
-EXTENDS Integers, Sequences, FiniteSets, TLC, Json
+EXTENDS Integers, Sequences, FiniteSets, TLC, Json, SequencesExt
 
 CONSTANTS Mode
 
@@ -243,6 +243,19 @@ EmitEnum == (Mode = "enum") =>
                                  find |-> FindIdx(x, p)])>>)
   /\ \A x \in Arrays : \A n \in 1..5 :
        PrintT(<<"ENUMC", ToJson([x |-> x, n |-> n, chunk |-> Chunk(x, n), map |-> MapF(x)])>>)
+
+\* maps (and immutable maps): string keys, iteration order unspecified - all/any are order independent, find/find_key
+\* must return one of the satisfying entries, map a permutation of the images, filter/chunk are "not an array": undefined
+Keys == {"a", "b", "c"}
+Maps == UNION {[ks -> 0..2] : ks \in SUBSET Keys}
+EmitEnumMap == (Mode = "enum") =>
+  \A mp \in Maps : \A t \in 0..2 :
+     LET ks == SetToSeq(DOMAIN mp)
+         sat == {k \in DOMAIN mp : mp[k] > t}
+     IN PrintT(<<"ENUMM", ToJson([kv |-> [i \in 1..Len(ks) |-> <<ks[i], mp[ks[i]]>>], t |-> t,
+                                   all |-> (\A k \in DOMAIN mp : mp[k] > t), any |-> (sat # {}),
+                                   sat |-> SetToSeq(sat),
+                                   at |-> [i \in 1..3 |-> LET k == SetToSeq(Keys)[i] IN <<k, IF k \in DOMAIN mp THEN mp[k] ELSE -1>>]])>>)
 
 \* laws of the enum specification (checked by TLC over the whole domain)
 EnumLaws == (Mode = "enum") =>
